@@ -84,7 +84,7 @@ def generate(seed, tier):
     for i, n in enumerate(osz):
         for tn, tk in ([TYPES[(i + seed) % 4]] if quick else TYPES):
             cases.append(Case('C07|own1d|%s|%d' % (tk, n), 'VP_CASE("@KEY@", vp::c07::own1d<%s,%d>);' % (tn, n)))
-    sq = [1, 2, 3, 4, 5, 7, 8, 9] + ([] if quick else [6, 10, 12, 16, 17, 32, 33])
+    sq = [1, 2, 3, 4, 5, 7, 8, 9] + ([] if quick else [6, 10, 12, 16, 17])      # (32/33 need >20 min of compile time per sanitised translation unit)
     shapes2 = [(n, n, n) for n in sq]
     # small-N matmul kernels: one hand-written row-remainder kernel per M mod 10 for N below / up to the vector width
     smalln = []
